@@ -113,6 +113,12 @@ def gen_case(rng):
         cards.insert(rng.randint(0, len(cards)), ["DIRECTIO", dio[0], dio[1]])
     if rng.random() < 0.3 and not aim_aligned:
         cards.insert(rng.randint(0, len(cards)), ["PKTIDX", "int", rng.choice([0, 1000, 7])])
+    if rng.random() < 0.15 and not aim_aligned:
+        # a keyword that merely begins with the letters END is an ordinary card; only the blank-padded END card terminates a header
+        k = rng.choice(["ENDTIME", "END_MJD", "ENDIAN", "END1", "ENDX"])
+        if k not in used:
+            used.add(k)
+            cards.insert(rng.choice([0, rng.randint(0, len(cards)), len(cards)]), rng.choice([[k, "int", rng.choice([7, 59000])], [k, "str", rng.choice(["late", "MJD 59000"])]]))
     c["cards"] = cards
     return c
 
@@ -216,6 +222,8 @@ def oracle(c, r, tpl):
             bad("raw-params", "get_raw_params fch1/orientation %s/%s, antenna %s/%s" % (rp["fch1"], rp["ascending"], c["fch1"], c["ascending"]))
     dio_card = r["struct"][0][0]["hdr"].get("DIRECTIO")
     blimpy_applicable = dio_card is None or dio_card.replace("'", "").strip() in ("0", "1")   # blimpy only knows DIRECTIO == 1
+    if any(k.startswith("END") for k in r["struct"][0][0]["hdr"]):
+        blimpy_applicable = False        # blimpy's reader stops at any card that starts with the letters END (guppi.py: line.startswith('END'))
     for fi, bl in enumerate(r["blimpy"] if blimpy_applicable else []):
         if "error" in bl:
             bad("blimpy", "blimpy cannot read file %d: %s" % (fi, bl["error"]))
